@@ -137,7 +137,7 @@ theorem loop_run (c : TokClass τ) (ps : List τ → Except ε (α × List τ)) 
             exact ⟨a :: out, by simp, .step _ _ t rest rest' a out hd (Or.inr rfl) hps hrun⟩
 
 
-/-- `parse_statements` returns `Ok` only at EOF or at an `END` keyword directly after a complete
+/-- the statements loop returns `Ok` only at EOF or (block bodies) at an `END` keyword directly after a complete
 statement; the statements returned are exactly those the statement parser produced on the way -/
 theorem loop_consumes_all (c : TokClass τ) (ps : List τ → Except ε (α × List τ)) (ts : List τ) (res : List α)
     (h : parseStatements c ps ts = .ok res) : Run c ps false ts res := by
@@ -150,10 +150,36 @@ theorem no_statement_only_at_eof (c : TokClass τ) (ps : List τ → Except ε (
   cases h with
   | eof _ _ hd => exact hd
 
--- non-vacuity: the END deviation is an instance of `Run.endKw` after one `step`
-example : parseStatements sqlClass parseSelect [.select, .num 1, .endKw, .other] = .ok ["1"] ∧
-    Run sqlClass parseSelect false [.select, .num 1, .endKw, .other] ["1"] :=
+/-- a successful run of a SCRIPT: no `endKw` case — every token is consumed by a separator skip or by
+a statement-parser call -/
+inductive RunScript (c : TokClass τ) (ps : List τ → Except ε (α × List τ)) : Bool → List τ → List α → Prop
+  | eof (expecting : Bool) (ts : List τ) : (dropSemis c ts).2 = [] → RunScript c ps expecting ts []
+  | step (expecting : Bool) (ts : List τ) (t : τ) (r rest' : List τ) (a : α) (out : List α) :
+      (dropSemis c ts).2 = t :: r → ((dropSemis c ts).1 = true ∨ expecting = false) →
+      ps (t :: r) = .ok (a, rest') → RunScript c ps true rest' out → RunScript c ps expecting ts (a :: out)
+
+/-- Since the repair of the END tail-drop (fix cc0dcb4) the top-level loop uses a class that never
+recognises END (`sqlClass`, `Query.stmtClass`): then `Ok` means that the WHOLE token list was consumed
+— nothing is dropped by the loop. -/
+theorem script_consumes_all (c : TokClass τ) (hc : ∀ t, c.isEndKw t = false)
+    (ps : List τ → Except ε (α × List τ)) (ts : List τ) (res : List α)
+    (h : parseStatements c ps ts = .ok res) : RunScript c ps false ts res := by
+  have key : ∀ (e : Bool) (ts : List τ) (out : List α), Run c ps e ts out → RunScript c ps e ts out := by
+    intro e ts out hr
+    induction hr with
+    | eof e ts hd => exact .eof e ts hd
+    | endKw ts t r _ he => rw [hc t] at he; cases he
+    | step e ts t r rest' a out hd hor hps _ ih => exact .step e ts t r rest' a out hd hor hps ih
+  exact key _ _ _ (loop_consumes_all c ps ts res h)
+
+-- non-vacuity: in a block body the END case is an instance of `Run.endKw` after one `step`; a script
+-- with the same tokens is rejected, and an accepted script is a `RunScript`
+example : parseStatements sqlBlockClass parseSelect [.select, .num 1, .endKw, .other] = .ok ["1"] ∧
+    Run sqlBlockClass parseSelect false [.select, .num 1, .endKw, .other] ["1"] :=
   ⟨rfl, loop_consumes_all _ _ _ _ rfl⟩
+example : parseStatements sqlClass parseSelect [.select, .num 1, .endKw, .other] = .error .expectedEnd := rfl
+example : RunScript sqlClass parseSelect false [.select, .num 1, .semi, .endKw] ["1", "COMMIT"] :=
+  script_consumes_all _ (fun _ => rfl) _ _ _ rfl
 end Loop
 
 end SqlVerif.Props.C05
